@@ -255,6 +255,28 @@ def r5(ctx):
     ctx.floor(R, 3)
 
 
+def r7(ctx):
+    R = "C06-R7"
+    ctx.rule(R, "sibling agreement: every write Tcb::fin_seq = Some(x) (poll_shutdown_write, on_close) computes x = snd_una.wrapping_add(send_buf.len()) - "
+                "the sequence number right after the last byte accepted into send_buf - never from snd_nxt (with bytes in flight the FIN would never be emitted)")
+    n = 0
+    for b in sorted(ctx.w.bodies.values(), key=lambda b: b.id):
+        if b.crate != "turmoil_net":
+            continue
+        for bb, i, s in b.all_stmts():
+            if place_last_field(s["p"]) != T + "fin_seq" or not isinstance(s["p"]["p"][-1], dict) or s["p"]["p"][-1].get("f") != "fin_seq":
+                continue
+            o = origin(b, s["r"]["o"]) if s["r"]["k"] == "use" else {"k": "agg", "r": s["r"]} if s["r"]["k"] == "agg" else {"k": "?"}
+            if o["k"] != "agg" or o["r"].get("variant") != "Some":
+                continue
+            n += 1
+            at = Slicer(ctx.w).atoms(b, o["r"]["ops"][0])
+            ok = "field:" + T + "snd_una" in at and "field:" + T + "send_buf" in at and "field:" + T + "snd_nxt" not in at
+            ctx.inst(R, f"{b.id}:fin_seq#{n}", ok, s["s"], "fin_seq = snd_una + send_buf.len()" if ok else
+                     f"`{b.id}` computes fin_seq from {sorted(a.rsplit('::', 1)[1] for a in at if a.startswith('field:' + T))}: with un-ACKed bytes in flight the FIN position is wrong and the FIN is never sent")
+    ctx.floor(R, 2)
+
+
 def run(ctx):
     r1(ctx)
     r2(ctx)
@@ -262,3 +284,6 @@ def run(ctx):
     r4(ctx)
     r5(ctx)
     C13.r6(ctx, R="C06-R6")
+    r7(ctx)
+    from . import C16
+    C16.r5(ctx)     # the window a host advertises reflects its *receive* buffer (a wrong window stalls both directions)
